@@ -41,7 +41,9 @@ func checkSeekTables(p *Program, r *Report) {
 			w := witnessOf(p, s.St.trace)
 			if os.Getenv("RSA_DEBUG") == "9" {
 				fmt.Fprintf(os.Stderr, "sample %s K=%s\n", s.Kind, tLt(K, want).key)
-				for k, v := range s.St.facts {
+				for _, k := range sortedFactKeys(s.St) {
+					v := s.St.facts[k]
+					_ = v
 					if strings.Contains(k, "key") {
 						fmt.Fprintf(os.Stderr, "   fact %s = %v\n", k, v)
 					}
@@ -175,7 +177,9 @@ func checkSeekTables(p *Program, r *Report) {
 				nS++
 				if os.Getenv("RSA_DEBUG") == "9" {
 					fmt.Fprintf(os.Stderr, "SKIP-STOP K<W=%s\n", tLt(K, W).key)
-					for k, v := range s.St.facts {
+					for _, k := range sortedFactKeys(s.St) {
+						v := s.St.facts[k]
+						_ = v
 						if strings.Contains(k, "key") {
 							fmt.Fprintf(os.Stderr, "   fact %s = %v\n", k, v)
 						}
@@ -258,7 +262,9 @@ func checkSeekTables(p *Program, r *Report) {
 				nRet++
 				// returned child: of the wanted type and positioned by an in-block seek
 				tfact := false
-				for k, v := range s.St.facts {
+				for _, k := range sortedFactKeys(s.St) {
+					v := s.St.facts[k]
+					_ = v
 					t := s.St.fterm[k]
 					if t.Op == "eq" && v && strings.Contains(k, "tableIter.typ") && strings.Contains(k, tab.key) && t.contains(wantP) {
 						tfact = true
@@ -272,7 +278,9 @@ func checkSeekTables(p *Program, r *Report) {
 			case s.Kind == "back":
 				nDesc++
 				isIdx := false
-				for k, v := range s.St.facts {
+				for _, k := range sortedFactKeys(s.St) {
+					v := s.St.facts[k]
+					_ = v
 					t := s.St.fterm[k]
 					if t.Op == "eq" && v && strings.Contains(k, "tableIter.typ") && strings.Contains(k, tab.key) && strings.Contains(k, "const[105]") {
 						isIdx = true
